@@ -193,6 +193,7 @@ def main():
     ap.add_argument('--jobs', type=int, default=16)
     ap.add_argument('--out', default='/tmp/mutsurvey.json')
     ap.add_argument('--only', default=None)
+    ap.add_argument('--rerun', default=None, help='JSON of an earlier survey: re-run only its test-passing survivors')
     args = ap.parse_args()
     sources = read_sources()
     allm = []
@@ -203,6 +204,9 @@ def main():
             if args.only and not desc.startswith(args.only + ':'):
                 continue
             allm.append((path, kind, desc, i, extra))
+    if args.rerun:
+        want = {tuple(x) for x in json.load(open(args.rerun))['survived_and_tests_pass']}
+        allm = [m for m in allm if (m[0], m[1], m[2]) in want]
     random.Random(args.seed).shuffle(allm)
     sample = allm[:args.sample]
     print('%d mutation sites, sampling %d' % (len(allm), len(sample)))
